@@ -624,3 +624,36 @@ prop(dict(
     assumptions=COMMON_ASSUME + ["on an error result only error-ness is compared; metadata is compared on success only",
                                  "the AV1Packet + frame assembler path is judged for panics only (the statement asks ownership of H264Packet and AV1Depacketizer)"],
 ))
+
+
+# ---------------------------------------------------------------- C11
+def rand_c11(seed, tier, cases=None):
+    rng = random.Random(seed * 7919 + 11)
+    out = []
+    for _ in range(600 if tier == "quick" else 12000):
+        mtu = rng.choice([5, 6, 7, 9, 13, 50, 200, 1200, rng.randint(5, 1500)])
+        frames = [dict(len=rng.choice([1, 2, mtu - 4, mtu - 3, mtu - 1, mtu, mtu + 1, 2 * mtu, rng.randint(1, 3 * mtu)]), salt=rng.randint(0, 200)) for _ in range(rng.randint(1, 5))]
+        for f in frames:
+            f["len"] = max(1, f["len"])
+        out.append(dict(fam="C11", kind="payload", valid=True, mtu=mtu, pidon=rng.random() < 0.7, startid=rng.choice([0, 1, 126, 127, 128, 32766, 32767, rng.randint(0, 32767)]),
+                        frames=frames, **{"class": "rand_payload"}))
+    return out
+
+
+prop(dict(
+    id="C11", fam="C11",
+    mc=[("VP8MC.tla", "VP8MC.cfg", {"thorough": {"Rich": "TRUE"}})],
+    gen=[("VP8Gen.tla", "VP8Gen.cfg", {"thorough": {"Rich": "TRUE", "Mtus": "{5, 6, 7, 8, 9, 10, 11, 12, 100, 1200}"}})],
+    rand=rand_c11,
+    trace=("VP8Trace.tla", "VP8Trace.cfg"),
+    shards={"quick": 2, "thorough": 12},
+    workers=16,
+    nontrivial=lambda c: c["kind"] == "payload" or len(c["bytes"]) >= 2,
+    mandatory=["desc_basic", "desc_ext", "desc_ext_pid7", "desc_ext_pid15", "trunc_descriptor", "trunc_payload", "payload_pid_small_mtu", "payload_nopid_small_mtu",
+               "payload_pid_large_mtu", "rand_payload"],
+    rule="TLC enumerates all 2^8 X/N/S/I/L/T/K/M flag combinations x boundary field values (PictureID 0/127/128/32767..., TL0PICIDX 0/255, TID/Y/KEYIDX octets, reserved bits set) "
+         "x 0/1/5 payload bytes, and every truncation of each descriptor; payloader histories of three frames with lengths around the fragment budget x MTU {5..12, 1200} x picture-id "
+         "mode x start id {0,1,126,127,128,129,32766,32767} (start id set through the verif accessor); seeded random histories are added; distinct = distinct case records",
+    assumptions=COMMON_ASSUME + ["picture id 0 is accepted in absent or 7-bit form (not observably different through VP8Packet)",
+                                 "the payloader's start picture id is set through a verif-tagged accessor"],
+))
